@@ -36,7 +36,14 @@ func tokenizePred(s string) []string {
 			strings.HasPrefix(s[i:], "!=") || strings.HasPrefix(s[i:], "<=") || strings.HasPrefix(s[i:], ">="):
 			out = append(out, s[i:i+2])
 			i += 2
-		case strings.ContainsRune("()[]<>!+-", rune(c)):
+		case c == '"':
+			j := i + 1
+			for j < len(s) && s[j] != '"' {
+				j++
+			}
+			out = append(out, s[i:j+1])
+			i = j + 1
+		case strings.ContainsRune("()[]<>!+-@", rune(c)):
 			out = append(out, string(c))
 			i++
 		case unicode.IsDigit(rune(c)):
@@ -123,6 +130,21 @@ func (p *predParser) and() *smt.Term {
 }
 func (p *predParser) cmp() *smt.Term {
 	b := p.ex.b
+	// tag comparison: label == "text" / label != "text"
+	if p.i+2 < len(p.toks)+0 && p.i+2 <= len(p.toks)-1 && strings.HasPrefix(p.toks[p.i+2], "\"") && (p.toks[p.i+1] == "==" || p.toks[p.i+1] == "!=") {
+		label, op, lit := p.toks[p.i], p.toks[p.i+1], strings.Trim(p.toks[p.i+2], "\"")
+		p.i += 3
+		d := p.findDraw(label)
+		if d == nil || d.Op != "tag" {
+			p.missing = true
+			return b.False
+		}
+		same := fmt.Sprint(d.V) == lit
+		if op == "!=" {
+			same = !same
+		}
+		return b.Bool(same)
+	}
 	x := p.sum()
 	switch p.peek() {
 	case "==", "!=", "<", "<=", ">", ">=":
@@ -161,9 +183,18 @@ func (p *predParser) sum() *smt.Term {
 }
 
 func (p *predParser) findDraw(label string) *Draw {
+	// label@k names the (k+1)-th draw with that label
+	k := 0
+	if p.peek() == "@" {
+		p.next()
+		fmt.Sscanf(p.next(), "%d", &k)
+	}
 	for i := range p.ex.draws {
 		if p.ex.draws[i].Label == label {
-			return &p.ex.draws[i]
+			if k == 0 {
+				return &p.ex.draws[i]
+			}
+			k--
 		}
 	}
 	p.missing = true
